@@ -310,10 +310,12 @@ Section Ladder.
     cast_loop (GBinary left op (Some r) false) ts'.
 
   (* parseJSONExpression *)
-  Definition json_level (d : nat) (ts : list token) : res :=
-    do (l, ts) <- primary d ts;
+  Definition json_tail (d : nat) (l : gexpr) (ts : list token) : res :=
     do (l, ts) <- cast_loop l ts;
     chain is_json_operator (json_step d) (S (length ts)) l ts.
+  Definition json_level (d : nat) (ts : list token) : res :=
+    do (l, ts) <- primary d ts;
+    json_tail d l ts.
 
   (* parseMultiplicativeExpression *)
   Definition mul_level (d : nat) (ts : list token) : res :=
@@ -331,8 +333,8 @@ Section Ladder.
     chain cont4 (bin_step (add_level d)) (S (length ts)) l ts.
 
   (* parseComparisonExpression *)
-  Definition cmp_level (d : nat) (ts : list token) : res :=
-    do (lhs, ts) <- concat_level d ts;
+  (* the part of parseComparisonExpression after the left operand *)
+  Definition cmp_tail (d : nat) (lhs : gexpr) (ts : list token) : res :=
     let peek_up := upper (lit (peek ts)) in
     let not_prefix :=
       isT (cur ts) TyNot
@@ -378,6 +380,10 @@ Section Ladder.
         do (r, ts) <- (if d_cmp_rhs_primary df then primary d else concat_level d) ts;
         Val (GBinary lhs op (Some r) false, ts)
     else Val (lhs, ts).
+
+  Definition cmp_level (d : nat) (ts : list token) : res :=
+    do (lhs, ts) <- concat_level d ts;
+    cmp_tail d lhs ts.
 
   (* parseAndExpression *)
   Definition and_level (d : nat) (ts : list token) : res :=
